@@ -87,7 +87,7 @@ pub fn check_trials(obs: &mut Obs, tag: &str, feed: &St, trials: &[St]) -> Vec<f
         track(&format!("{tag}: |p_trial - p_feed| / (1e-7 p + 1e-10)"), (pt - pf).abs() / (TOL_P_REL * pf.abs() + TOL_P_ABS));
         // open finding C07/trial-state-off-pressure-at-vanishing-feed-pressure: a dense trial state whose density
         // iteration at a vanishing feed pressure ended without meeting its pressure test (signature below)
-        if pf.abs() < 1e-4 && pt > 1e3 * pf.abs() && tr.density.to_reduced() > 10.0 * feed.density.to_reduced() && !((pt - pf).abs() <= TOL_P_ABS + TOL_P_REL * pt.abs().max(pf.abs())) {
+        if pf.abs() < 1e-4 && tr.density.to_reduced() > 10.0 * feed.density.to_reduced() && !((pt - pf).abs() <= TOL_P_ABS + TOL_P_REL * pt.abs().max(pf.abs())) {
             obs.count();
             obs.class("signature:C07/trial-state-off-pressure-at-vanishing-feed-pressure");
             obs.known_or_fail(
@@ -196,6 +196,13 @@ pub fn expect_stable(obs: &mut Obs, tag: &str, s: &St, opts: &SolverOpt, strict_
                 p,
                 s.molefracs.to_vec()
             );
+            // a trial state that is not at the pressure of the analysed state (open finding, signature in
+            // check_trials) makes the verdict of this analysis meaningless: it is attributed to the same finding
+            let off_p = format!("{tag}: trial ");
+            if obs.known.iter().any(|(id, m)| id == "C07/trial-state-off-pressure-at-vanishing-feed-pressure" && m.starts_with(&off_p)) {
+                obs.class("verdict not judged: a trial state of this analysis is off the feed pressure (open finding)");
+                return;
+            }
             if d.len() != trials.len() {
                 return; // a trial state could not be rebuilt: already reported
             }
